@@ -94,6 +94,10 @@ class Lockstep:
         if case.get("version") is not None:
             self.gateway.protocol_version = case["version"]
             self.model.set_version_directly(case["version"])
+        for name, value in (case.get("config_extra") or {}).items():
+            # options of Config this harness knows nothing about, set to a non-default value: only property-level rules
+            # that hold for ANY configuration are judged by the caller (C03: nothing but library errors)
+            setattr(self.gateway.config, name, value)
         self.transport.fail_attempts = set(case.get("faults") or ())
         if case.get("fault_class"):
             self.transport.fault_class = case["fault_class"]
@@ -162,6 +166,13 @@ class Lockstep:
                 self.model.flag(op[1], op[2], op[3])
             elif kind == "restore":
                 self.restore(op[1], op[2])
+            elif kind == "clock":
+                # time passes (monotonic and wall clock together, vf.vclock): nothing in the statements ages - episodes,
+                # parked commands, handed-out ids and the registry are as they were
+                from . import vclock
+
+                vclock.advance(float(op[1]))
+                self.stats["steps:clock"] += 1
             elif kind == "forget":
                 # the application removes a node from the public registry (decommissioned device); its id is free again
                 self.gateway.nodes.pop(op[1], None)
